@@ -31,7 +31,7 @@ m = {
  "hooks": {
    "guard": "cargo feature `verif` (#[cfg(feature = \"verif\")])",
    "enable": "the harness crate /verif/harness compiles /repo/src/*.rs in place (#[path]) with its own feature `verif` on: cargo build --profile verif --test lcv (done by ./check)",
-   "baseline_off_cmd": "cd /repo && cargo test --workspace --no-fail-fast --offline",
+   "baseline_off_cmd": "cd /repo && export TMPDIR=$(mktemp -d /tmp/lcbase.XXXXXX) && cargo test --workspace --no-fail-fast --offline; rc=$?; rm -rf $TMPDIR; exit $rc",
    "source_commits": hook_commits,
    "add_only": True,
  },
